@@ -53,12 +53,12 @@ theorem cer_profile_cer_ber :
     Compat cerProfile Generated.cerDecByType ∧ Compat cerProfile Generated.berDecByType :=
   ⟨⟨fun h => (by cases h), fun _ => ⟨rfl, by decide⟩⟩, ⟨fun h => (by cases h), fun _ => ⟨rfl, by decide⟩⟩⟩
 
-/-- **DER round trip under the DER, CER and BER decoders** (types without ANY/REAL; values to which
+/-- **DER round trip under the DER, CER and BER decoders** (types without ANY; REAL in its binary form, compared as the number it denotes; values to which
     finding E3 — a present OPTIONAL member with empty contents is left out — does not apply).
     The DER encoding of a value, followed by anything, decodes under each of the three decoders to
     the value (SET OF compared as a multiset: DER sorts it) and leaves exactly what followed. -/
 theorem der_roundtrip_partial (o : EncOpts) (hi : o.ifNotEmpty = false) (t : Ty) (v : Val) (b tail : Bytes)
-    (hreg : t.reg Generated.derEnc true = true) (hwf : t.WF = true) (hty : HasType t v = true)
+    (hreg : t.reg true Generated.derEnc true = true) (hwf : t.WF = true) (hty : HasType t v = true)
     (hn : noE3 true t v = true) (h : encItem Generated.derEnc o t v = .ok b) :
     (∃ w, decodeOne Generated.derDecByType t (b ++ tail) = .ok (w, tail) ∧ VEq t v w) ∧
     (∃ w, decodeOne Generated.cerDecByType t (b ++ tail) = .ok (w, tail) ∧ VEq t v w) ∧
@@ -74,7 +74,7 @@ theorem der_roundtrip_partial (o : EncOpts) (hi : o.ifNotEmpty = false) (t : Ty)
     region also excludes an explicit tag over BOOLEAN/INTEGER/ENUMERATED/NULL/OBJECT IDENTIFIER —
     finding E1).  Strings longer than 1000 octets are written in 1000-octet segments and read back. -/
 theorem cer_roundtrip_partial (o : EncOpts) (hi : o.ifNotEmpty = false) (t : Ty) (v : Val) (b tail : Bytes)
-    (hreg : t.reg Generated.cerEnc false = true) (hwf : t.WF = true) (hty : HasType t v = true)
+    (hreg : t.reg true Generated.cerEnc false = true) (hwf : t.WF = true) (hty : HasType t v = true)
     (hn : noE3 true t v = true) (h : encItem Generated.cerEnc o t v = .ok b) :
     (∃ w, decodeOne Generated.cerDecByType t (b ++ tail) = .ok (w, tail) ∧ VEq t v w) ∧
     (∃ w, decodeOne Generated.berDecByType t (b ++ tail) = .ok (w, tail) ∧ VEq t v w) :=
@@ -89,10 +89,19 @@ example :
     let t : Ty := .seq (.cons .req (.tagged true .context 5 (.prim .boolean))
       (.cons (.dflt (.int 7)) (.prim .integer) (.cons .req (.setOf (.prim (.str 4))) .nil)))
     let v : Val := .seq [.bool true, .int 7, .seqOf [.str [9, 9]]]
-    t.reg Generated.derEnc true = true ∧ t.WF = true ∧ HasType t v = true ∧ noE3 true t v = true ∧
+    t.reg true Generated.derEnc true = true ∧ t.WF = true ∧ HasType t v = true ∧ noE3 true t v = true ∧
       (encItem Generated.derEnc {} t v).toOption.isSome = true := by
   decide +kernel
 
+
+/-- the region includes REAL: 12·2³ is written with the odd mantissa 3 and exponent 5 and read back as
+    that number -/
+example :
+    let t : Ty := .seq (.cons .req (.prim .real) (.cons .req (.prim .integer) .nil))
+    let v : Val := .seq [.real (.fin 12 2 3), .int 1]
+    t.reg true Generated.derEnc true = true ∧ t.WF = true ∧ HasType t v = true ∧ noE3 true t v = true ∧
+      (encItem Generated.derEnc {} t v).toOption = some [0x30, 0x08, 0x09, 0x03, 0x80, 0x05, 0x03, 0x02, 0x01, 0x01] := by
+  decide +kernel
 
 /-- the decoder tables form a chain: DER is a restriction of CER, CER of BER (generated tables) -/
 theorem der_stricter_cer : Generated.derDecByType.Stricter Generated.cerDecByType :=
